@@ -17,6 +17,7 @@ import Driver.Entity
 import Driver.NodeRender
 import Driver.Block
 import Driver.Inline
+import Driver.HtmlDecode
 
 def dispatch (line : String) : String :=
   match line.trimAscii.toString.splitOn " " with
@@ -38,6 +39,7 @@ def dispatch (line : String) : String :=
   | "noderender" :: args => Driver.NodeRender.handle args
   | "block" :: args => Driver.Block.handle args
   | "inline" :: args => Driver.Inline.handle args
+  | "htmldecode" :: args => Driver.HtmlDecode.handle args
   | _ => "bad-stream"
 
 partial def loop (h : IO.FS.Stream) (out : IO.FS.Stream) : IO Unit := do
